@@ -111,7 +111,7 @@ CHECKS = {
             "properties with injected failures at every early primitive call; replay with failing writer/reader and wrapped generated "
             "methods that log entry/exit modes",
             "PModeRestored/PDModeRestored are action properties of every frame exit in ProtoSer/ProtoDeser; MC_Proto explores both entry modes "
-            "x bounded values / corrupted bytes x a failure injected at each of the first 5 (8) primitive calls; the same behaviours run on "
+            "x bounded values / corrupted bytes x a failure injected at each of the first 5 (6) primitive calls; the same behaviours run on "
             "the generated code with a writer/reader that fails at that call; every generated serialize/deserialize (nested structs, array "
             "elements, case data) is wrapped to record mode at entry and exit and is also entered directly with either mode; the mode in force "
             "at every primitive call is compared with the model's log; verdict: exit mode = entry mode for every call, declared mode at every primitive",
